@@ -12,6 +12,10 @@ import (
 )
 
 func main() {
+	os.Exit(realMain())
+}
+
+func realMain() int {
 	if len(os.Args) < 2 {
 		fmt.Println("usage: gosx run|check ...")
 		os.Exit(2)
@@ -21,12 +25,12 @@ func main() {
 		cmdRun(os.Args[2:])
 	case "check":
 		if len(os.Args) >= 4 && os.Args[2] == "--replay" {
-			os.Exit(cmdReplay(os.Args[3]))
+			return cmdReplay(os.Args[3])
 		}
-		os.Exit(cmdCheck(os.Args[2:]))
+		return cmdCheck(os.Args[2:])
 	case "native":
 		// gosx native <pkg> <harness> [replay.json] [tags]
-		nat := sx.NewNative("/repo", "/verif/harness", "/verif/.work")
+		nat := sx.NewNative("/repo", verifDir+"/harness", fmt.Sprintf("%s/.work/n%d", verifDir, os.Getpid()))
 		tags := ""
 		replay := ""
 		if len(os.Args) > 4 {
@@ -46,14 +50,15 @@ func main() {
 		cmdConform(os.Args[2:])
 	default:
 		fmt.Println("unknown command")
-		os.Exit(2)
+		return 2
 	}
+	return 0
 }
 
 func cmdRun(args []string) {
 	fs := flag.NewFlagSet("run", flag.ExitOnError)
 	repo := fs.String("repo", "/repo", "")
-	hdir := fs.String("harness", "/verif/harness", "")
+	hdir := fs.String("harness", verifDir+"/harness", "")
 	tags := fs.String("tags", "", "")
 	pkg := fs.String("pkg", "ecs", "")
 	fn := fs.String("fn", "", "")
@@ -61,6 +66,7 @@ func cmdRun(args []string) {
 	verbose := fs.Bool("v", false, "")
 	logs := fs.Bool("logs", false, "")
 	dbgPure := fs.Bool("dbgpure", false, "")
+	mapOrder := fs.Bool("maporder", false, "")
 	prof := fs.String("cpuprofile", "", "")
 	fs.Parse(args)
 	sx.DebugPure = *dbgPure
@@ -80,6 +86,7 @@ func cmdRun(args []string) {
 	opts.Workers = *workers
 	opts.Verbose = *verbose
 	opts.KeepLogs = *logs
+	opts.MapOrderChoice = *mapOrder
 	if err := p.InitProgram(opts); err != nil {
 		fmt.Println("init error:", err)
 		os.Exit(2)
@@ -111,7 +118,7 @@ func cmdRun(args []string) {
 func cmdConform(args []string) {
 	fs := flag.NewFlagSet("conform", flag.ExitOnError)
 	repo := fs.String("repo", "/repo", "")
-	hdir := fs.String("harness", "/verif/harness", "")
+	hdir := fs.String("harness", verifDir+"/harness", "")
 	tags := fs.String("tags", "", "")
 	pkg := fs.String("pkg", "ecs", "")
 	fn := fs.String("fn", "", "")
@@ -128,7 +135,7 @@ func cmdConform(args []string) {
 		fmt.Println("init error:", err)
 		os.Exit(2)
 	}
-	nat := sx.NewNative(*repo, *hdir, "/verif/.work")
+	nat := sx.NewNative(*repo, *hdir, fmt.Sprintf("%s/.work/c%d", verifDir, os.Getpid()))
 	bin, err := nat.Build(*pkg, *tags, false)
 	if err != nil {
 		fmt.Println(err)
